@@ -36,6 +36,8 @@ type KnownFinding struct {
 	Site     string `json:"site_contains,omitempty"`
 	What     string `json:"what"`
 	Commit   string `json:"commit,omitempty"`
+	// When pins the finding to the specific failing input: "param:<name>" / "draw:<name>" -> value
+	When map[string]int64 `json:"when,omitempty"`
 }
 
 type KnownFile struct {
@@ -52,9 +54,37 @@ func loadKnown() KnownFile {
 	return kf
 }
 
-func (k *KnownFinding) matches(prop string, v *Violation) bool {
+func (k *KnownFinding) matches(prop string, v *Violation, params map[string]int) bool {
 	if k.Property != prop {
 		return false
+	}
+	for key, want := range k.When {
+		switch {
+		case strings.HasPrefix(key, "param:"):
+			if got, ok := params[strings.TrimPrefix(key, "param:")]; !ok || int64(got) != want {
+				return false
+			}
+		case strings.HasPrefix(key, "draw:"):
+			found := false
+			for _, d := range v.Draws {
+				if d.Name == strings.TrimPrefix(key, "draw:") {
+					found = true
+					val := int64(d.Val)
+					if d.Kind == "bytes" {
+						val = int64(d.Len)
+					}
+					if val != want {
+						return false
+					}
+					break
+				}
+			}
+			if !found {
+				return false
+			}
+		default:
+			return false
+		}
 	}
 	if k.Harness != "" && k.Harness != v.Harness {
 		return false
@@ -381,7 +411,7 @@ func finishRun(prop, tier string, seed int64, specs []*HarnessSpec, units []unit
 		}
 		isKnown := false
 		for i := range known.Open {
-			if known.Open[i].matches(prop, v) {
+			if known.Open[i].matches(prop, v, unitParams[fmt.Sprintf("%p", v)]) {
 				isKnown = true
 				v.Known = known.Open[i].What
 				knownHit = append(knownHit, fmt.Sprintf("KNOWN-FINDING: property=%s %s [%s %q at %s]", prop, known.Open[i].What, v.Kind, v.Msg, v.Site))
